@@ -103,6 +103,19 @@ def check(ctx):
     check_node_identity(ctx, ('taxonomy.',), floor=3)
     check_pairs_from_tree(ctx)
     check_rows_are_file_positions(ctx)
+    # ... and the labels in those rows are the labels of the file: a
+    # missing value of a categorical column is not turned into a label
+    # (sa/rules/idioms.py)
+    from ..rules.idioms import check_sentinel_codes_gather
+    n_sc = 0
+    for fi_ in db.iter_functions():
+        if fi_.module.short in ('utils.anndata_utils', 'taxonomy.utils',
+                                'taxonomy.taxonomy_tree',
+                                'taxonomy.data_release_utils'):
+            n_sc += check_sentinel_codes_gather(ctx, fi_)
+    ctx.ok('R-IDIOM/sentinel-code-gather', 'obs readers and tree builders',
+           'package', f'{n_sc} gather(s) by category codes found',
+           nontrivial=False)
     check_release_cells_unique(ctx)
     from .C05 import sweep_generic_rules
     sweep_generic_rules(ctx, ('taxonomy.',))
